@@ -63,6 +63,7 @@ func runC16(ctx *core.Ctx) {
 		c16OracleExhaustive(ctx)
 		c16OracleUnderFile(ctx)
 		c16OracleOperators(ctx)
+		c16OracleRepeated(ctx)
 	}
 	ctx.Res.Exhaustive = only == ""
 	if want("random") {
@@ -313,6 +314,24 @@ func c16RandArgs(r *rand.Rand, malformed, forLoad bool) c16Args {
 			s.LabelFiles = append(s.LabelFiles, paths[perm[j]])
 		}
 		if forLoad {
+			// round 7: a path listed a second time after another file (`[a, b, a]`; the second entry with its own
+			// `required` / `format`): override.EnforceUnicity de-duplicates env_file lists (first position, last entry) and
+			// leaves label_file lists alone — the model applies `uniqBy` to the list as written
+			if n := len(s.EnvFiles); n >= 2 && r.Intn(3) == 0 {
+				f := s.EnvFiles[r.Intn(n-1)]
+				f.Required = r.Intn(3) != 0
+				if r.Intn(6) == 0 {
+					f.Format = ""
+				}
+				at := n
+				if r.Intn(3) == 0 {
+					at = 1 + r.Intn(n)
+				}
+				s.EnvFiles = append(s.EnvFiles[:at:at], append([]c16EnvFile{f}, s.EnvFiles[at:]...)...)
+			}
+			if n := len(s.LabelFiles); n >= 2 && r.Intn(3) == 0 {
+				s.LabelFiles = append(s.LabelFiles, s.LabelFiles[r.Intn(n-1)])
+			}
 			// the YAML form of `environment`
 			if len(s.Environment) > 0 {
 				y := &c16YEnv{}
@@ -510,6 +529,32 @@ func c16RandomLoad(ctx *core.Ctx) {
 			a.Layout = "extends"
 		case 5, 7:
 			a.Layout = "extends-split"
+		case 2, 6:
+			a.Layout = "merge" // round 7: base + override, two config files of one directory
+		}
+		for _, s := range a.Services {
+			rep := func(l []string) bool {
+				seen := map[string]bool{}
+				for _, p := range l {
+					if seen[p] {
+						return true
+					}
+					seen[p] = true
+				}
+				return false
+			}
+			var ef []string
+			for _, f := range s.EnvFiles {
+				ef = append(ef, f.Path)
+			}
+			if rep(ef) {
+				ctx.Count("load-repeated-env-file-path")
+				ctx.Count("load-repeated-env-file-path-layout-" + a.Layout)
+			}
+			if rep(s.LabelFiles) {
+				ctx.Count("load-repeated-label-file-path")
+				ctx.Count("load-repeated-label-file-path-layout-" + a.Layout)
+			}
 		}
 		if i%3 == 0 && !a.SkipResolveEnvironment {
 			a.Methods = true
@@ -722,6 +767,58 @@ func c16OracleUnderFile(ctx *core.Ctx) {
 					c16SiteLayout(ctx, &o)
 				}
 				ctx.Add("c16.oracle", o)
+			}
+		}
+	}
+}
+
+// round 7: file lists in which a path occurs twice — every sequence of three entries over the files F1, F2, F3 with a
+// repetition (21), as env_file list and as label_file list, with / without an `environment` / `labels` entry for the shared
+// key, files of literals / with a reference to the shared key.  The written order decides ("entries in order, a later file
+// overriding an earlier one"): through the Project methods, a whole load, base + override (`load_merge`: the list split
+// over two config files), the second call site and one of include / extends / extends-split.
+func c16OracleRepeated(ctx *core.Ctx) {
+	n := 0
+	for pat := 0; pat < 27; pat++ {
+		idx := []int{pat % 3, pat / 3 % 3, pat / 9}
+		if idx[0] != idx[1] && idx[1] != idx[2] && idx[0] != idx[2] {
+			continue
+		}
+		for labels := 0; labels < 2; labels++ {
+			for st := 0; st < 2; st++ {
+				for ref := 0; ref < 2; ref++ {
+					n++
+					ext := []string{".env", ".lbl"}[labels]
+					o := c16OracleArgs{Penv: map[string]string{"K2": "P.K2"}, Keys: []string{"K1", "K2", "U1", "U2", "U3"},
+						Discard: n%4 == 0, ListForm: n%3 == 0, Merge: true, Sites: true}
+					var ls []c16Layer
+					for j, i := range idx {
+						tag := fmt.Sprintf("F%d", i+1)
+						lines := c16FileLine(tag, "K1", 1, "")
+						if ref == 1 {
+							lines = append(lines, c16FileLine(tag, "K2", 3, "K1")...)
+						} else if i != 1 {
+							lines = append(lines, c16FileLine(tag, "K2", 1, "")...)
+						}
+						lines = append(lines, c16FileLine(tag, fmt.Sprintf("U%d", i+1), 1, "")...)
+						// the last entry of an env_file list is optional: an entry that replaces an earlier one shows in the references
+						ls = append(ls, c16Layer{Path: tag + ext, Present: true, Required: labels == 1 || j != 2, Lines: lines})
+					}
+					plain := []c16Layer{{Path: "P" + []string{".lbl", ".env"}[labels], Present: true, Required: true, Lines: c16FileLine("P", "K1", 1, "")}}
+					if labels == 1 {
+						o.LabelLayers, o.EnvLayers = ls, plain
+						if st == 1 {
+							o.Labels = [][2]*string{c16kv("K1", sp("L.K1"))}
+						}
+						ctx.Count("oracle-repeated-label-file-path")
+					} else {
+						o.EnvLayers, o.LabelLayers = ls, plain
+						o.Environment = c16EnvState("K1", st)
+						ctx.Count("oracle-repeated-env-file-path")
+					}
+					c16SiteLayout(ctx, &o)
+					ctx.Add("c16.oracle", o)
+				}
 			}
 		}
 	}
